@@ -54,8 +54,10 @@ def extent_vars(events):
     return sorted(names)
 
 
-def analyse(events, annexed, counters):
-    """Returns (faults, info).  faults: list of dicts (first per field and
+def analyse(events, annexed, counters, min_d=1):
+    """`min_d`: smallest mesh halo depth considered (the largest literal
+    depth the transformation history asked for).
+    Returns (faults, info).  faults: list of dicts (first per field and
     mechanism); info: {"valid_D": [...], "states": n, "exhaustive": bool}."""
     def bump(k, n=1):
         counters[k] = counters.get(k, 0) + n
@@ -74,7 +76,7 @@ def analyse(events, annexed, counters):
     joint = 0
     for env0 in envs:
         nvalid = 0
-        for D in range(1, MAX_D + 1):
+        for D in range(min_d, MAX_D + 1):
             env = dict(env0)
             env["max_halo_depth_mesh"] = D
             runs = []
